@@ -447,6 +447,27 @@ def model_plan(c: Dict[str, Any]) -> List[Dict[str, Any]]:
     return plan
 
 
+def reference_outcome(c: Dict[str, Any], op: Dict[str, Any]) -> Tuple[Optional[List[Any]], Optional[str]]:
+    """independent reference evaluation of one call from the scenario's definition: (full result tables, None) or (None, error)"""
+    w, req = c["world"], c["request"]
+    d = op["d"] if op["d"] is not None else c["stored"]
+    tabs = []
+    if "g" in req:
+        if d is None or d.get("empty"):
+            return None, "apiMissing"
+        if 1 in d["flag"]:
+            # tables of the steps that do not depend on the failing group are still produced before the error surfaces
+            return None, "flagRaised"
+        tabs.append([["g", [v + w["add"] for v in d["v"]]]])
+    if "a" in req:
+        tabs.append([["a", list(w["a"])]])
+    if "b" in req:
+        tabs.append([["b", list(w["b"])]])
+    if "z" in req:
+        tabs.append([["z", [v + w["add2"] for v in w["a"]]]])
+    return sorted(tabs), None
+
+
 def canon_model_tabs(ts: List[Any]) -> List[Any]:
     return sorted([[ID_NAME[t[0]], list(t[1])]] for t in ts)
 
@@ -569,9 +590,26 @@ def run(ctx: Any) -> None:
                     ok = True  # streamed call that fails before delivering anything vs a fresh prepare that already fails
                 if not ok:
                     ctx.violation(suite, {"case": c, "index": k}, f"call {k} ({op}) on the reused session returned {impl} but a fresh session returns {fresh}", impl, fresh)
-                # items an early-stopping consumer received must be results of this call's full run
-                if "streamed" in impl_c and ms is not None:
-                    pass
+                # independent reference evaluation of this call (scenario definition, not the model, not mloda)
+                ref, ref_err = reference_outcome(c, op)
+                if "tables" in impl_c:
+                    if ref is None or impl_c["tables"] != ref:
+                        ctx.violation(suite, {"case": c, "index": k}, f"call {k} ({op}) returned {impl} but the reference evaluation gives {ref if ref is not None else ref_err}", impl, ref if ref is not None else ref_err)
+                elif "raised" in impl_c:
+                    if ref is not None or impl_c["raised"] != ref_err:
+                        ctx.violation(suite, {"case": c, "index": k}, f"call {k} ({op}) raised {impl['raised']} but the reference evaluation gives {ref if ref is not None else ref_err}", impl, ref if ref is not None else ref_err)
+                else:
+                    items = impl_c["streamed"]
+                    if ref is not None:
+                        lim = None if op["consumer"]["t"] == "exhaust" else op["consumer"]["k"]
+                        want = len(ref) if lim is None else min(lim, len(ref))
+                        bad = [t for t in items if t not in ref] or len(items) != want or len({json.dumps(t) for t in items}) != len(items) or impl_c["err"] is not None
+                        if bad:
+                            ctx.violation(suite, {"case": c, "index": k}, f"call {k} ({op}) streamed {items} err={impl_c['err']}; reference: {want} distinct tables out of {ref}", impl, ref)
+                    else:
+                        lim = None if op["consumer"]["t"] == "exhaust" else op["consumer"]["k"]
+                        if impl_c["err"] not in (ref_err, None) or (impl_c["err"] is None and lim is None):
+                            ctx.violation(suite, {"case": c, "index": k}, f"call {k} ({op}) streamed {items} err={impl_c['err']}; reference evaluation fails with {ref_err}", impl, ref_err)
             if not o["features_unchanged"]:
                 ctx.violation(suite, c, f"caller's feature objects were modified by prepare/run with the default copy_features: {o['snap0']} -> {o['snap1']}", o["snap1"], o["snap0"])
             if not o["stored_unchanged"]:
